@@ -29,7 +29,7 @@ func isLookupFunc(fn *types.Func) bool {
 }
 
 func checkC04(ctx *Ctx, r *Report) {
-	r.Explanation = "Five structural clauses, each a sufficient condition for a part of the property (a reported site is a potential panic/hang; on the pinned tree every reported site was triaged): (1) bounded recursion through references — on the cog-only call graph (static calls, interface calls by class hierarchy, func-typed fields by the values stored into them), every recursive call whose argument derives from the result of an object lookup / reference resolution is guarded: by a visited set or depth bound, or by a dominating kind test on the looked-up type that excludes `ref` (so recursion continues on a finite tree), and the resolvers themselves carry a cycle guard; (2) no explicit panic(...) is reachable from the pipeline entry points; (3) single-value type assertions on `any` values are dominated by a comma-ok assertion / type switch on the same expression or sit in the reviewed table; (4) pointers returned with a found-flag/error by cog lookups are not used where the flag was discarded; (5) in the JSON-family parsers, constant indexing into slices owned by the schema libraries is dominated by a length / non-nil / type-presence guard."
+	r.Explanation = "Eight structural clauses, each a sufficient condition for a part of the property (a reported site is a potential panic/hang; on the pinned tree every reported site was triaged): (1) bounded recursion through references — on the cog-only call graph (static calls, interface calls by class hierarchy, func-typed fields by the values stored into them), every recursive call whose argument derives from the result of an object lookup / reference resolution is guarded: by a visited set or depth bound, or by a dominating kind test restricting the looked-up type to a leaf kind (scalar/enum: nothing to descend into); closures bound to a local variable and calling it are recursion too; lookups include every function returning what a Locate*/Resolve* function returned; loops whose variable is reassigned from a lookup result leave on an already visited reference; (2) no explicit panic(...) is reachable from the pipeline entry points; (3) single-value type assertions on `any` values are dominated by a comma-ok assertion / type switch on the same expression or sit in the reviewed table; (4) pointers returned with a found-flag/error by cog lookups are not used where the flag was discarded; (5) in the JSON-family parsers, constant indexing into slices owned by the schema libraries is dominated by a length / non-nil / type-presence guard; (6) selections through the kind-specific pointer members of ast.Type (.Scalar, .Ref, .Array, …) on an indexed or ranged collection element are dominated by a kind test on that element (or by a kind-equality with a tested element); (7) every set that is both probed and filled in a function derives its keys the same way on both sides (a visited set probed with other keys than it is filled with never stops a worklist)."
 	r.NotCovered = "nil dereference of Type.<Kind> accessors, index out of range on IR slices and CUE values, stack depth on deeply nested acyclic input, time/space blow-up, panics inside third-party libraries."
 	r.Exhaustive = true
 	r.Assumptions = []string{"text/template converts a panic inside a template function into an error (safeCall): functions only invoked from templates are not entry-point reachable by static edges", "library slices are either nil or populated (a non-nil test is accepted as a guard for index 0)"}
@@ -37,17 +37,172 @@ func checkC04(ctx *Ctx, r *Report) {
 	eng := newEffectsEngine(ctx)
 	g := buildCallGraph(ctx, eng)
 	r.Count("call graph nodes", len(g.nodes))
-	c04Recursion(ctx, r, g)
+	like := c04Recursion(ctx, r, g)
+	c04RefLoops(ctx, r, like)
 	c04Panics(ctx, r, g)
 	c04Assertions(ctx, r)
 	c04Lookups(ctx, r)
 	c04ParserFrontier(ctx, r)
+	c04KindGuardedElements(ctx, r)
+	c04VisitedKeyConsistency(ctx, r)
 }
 
 // ---------------------------------------------------------------------------
 // (1) recursion through references
 
-func c04Recursion(ctx *Ctx, r *Report, g *callGraph) {
+// c04LookupLike: functions that hand out what a reference designates: the Locate*/Resolve*
+// family, plus (fixpoint) every cog function that returns a value derived from one of them.
+func c04LookupLike(ctx *Ctx, g *callGraph) map[*types.Func]bool {
+	like := map[*types.Func]bool{}
+	for fn := range g.nodes {
+		if isLookupFunc(fn) {
+			like[fn] = true
+		}
+	}
+	for changed := true; changed; {
+		changed = false
+		for fn, n := range g.nodes {
+			if like[fn] {
+				continue
+			}
+			sig := fn.Type().(*types.Signature)
+			carries := false
+			for i := 0; i < sig.Results().Len(); i++ {
+				t := sig.Results().At(i).Type()
+				if typeContainsRef(t) && !isErrorType(t) {
+					carries = true
+				}
+			}
+			if !carries {
+				continue
+			}
+			info := n.pkg.TypesInfo
+			derived := c04LookupDerived(info, n.decl, like)
+			found := false
+			ast.Inspect(n.decl.Body, func(m ast.Node) bool {
+				if _, ok := m.(*ast.FuncLit); ok {
+					return false
+				}
+				rs, ok := m.(*ast.ReturnStmt)
+				if !ok {
+					return true
+				}
+				for _, res := range rs.Results {
+					if t := info.TypeOf(res); t == nil || !typeContainsRef(t) || isErrorType(t) {
+						continue
+					}
+					// the returned expression is itself the looked-up value (or a part of it), not something computed from it
+					e := ast.Unparen(res)
+					if c, ok := e.(*ast.CallExpr); ok {
+						if f := callee(info, c); f != nil && like[f.Origin()] {
+							found = true
+						}
+						continue
+					}
+					if id := rootIdent(e); id != nil && isAccessPath(e) {
+						if _, ok := derived[objOf(info, id)]; ok {
+							found = true
+						}
+					}
+				}
+				return true
+			})
+			if found {
+				like[fn] = true
+				changed = true
+			}
+		}
+	}
+	return like
+}
+
+func isAccessPath(e ast.Expr) bool {
+	switch x := ast.Unparen(e).(type) {
+	case *ast.Ident:
+		return true
+	case *ast.SelectorExpr:
+		return isAccessPath(x.X)
+	case *ast.StarExpr:
+		return isAccessPath(x.X)
+	case *ast.IndexExpr:
+		return isAccessPath(x.X)
+	}
+	return false
+}
+
+func isErrorType(t types.Type) bool {
+	return t != nil && t.String() == "error"
+}
+
+// c04LookupDerived: locals of fd that (transitively) hold the result of a lookup.
+func c04LookupDerived(info *types.Info, fd *ast.FuncDecl, like map[*types.Func]bool) map[types.Object]ast.Expr {
+	isLookup := func(call *ast.CallExpr) bool {
+		fn := callee(info, call)
+		return fn != nil && (isLookupFunc(fn) || like[fn.Origin()])
+	}
+	lookupDerived := map[types.Object]ast.Expr{}
+	for changed := true; changed; {
+		changed = false
+		ast.Inspect(fd.Body, func(m ast.Node) bool {
+			var lhs []ast.Expr
+			var rhsList []ast.Expr
+			switch x := m.(type) {
+			case *ast.AssignStmt:
+				lhs, rhsList = x.Lhs, x.Rhs
+			case *ast.RangeStmt:
+				// `for _, f := range resolved.Struct.Fields`
+				if x.Value != nil {
+					lhs, rhsList = []ast.Expr{x.Value}, []ast.Expr{x.X}
+				}
+			case *ast.ValueSpec:
+				for _, nm := range x.Names {
+					lhs = append(lhs, nm)
+				}
+				rhsList = x.Values
+			default:
+				return true
+			}
+			var from ast.Expr
+			for _, rhs := range rhsList {
+				ast.Inspect(rhs, func(k ast.Node) bool {
+					if _, ok := k.(*ast.FuncLit); ok {
+						return false
+					}
+					if call, ok := k.(*ast.CallExpr); ok && isLookup(call) {
+						from = call
+					}
+					if id, ok := k.(*ast.Ident); ok {
+						if src, ok := lookupDerived[objOf(info, id)]; ok && from == nil {
+							from = src
+						}
+					}
+					return true
+				})
+			}
+			if from != nil {
+				for _, l := range lhs {
+					if id, ok := l.(*ast.Ident); ok && id.Name != "_" {
+						if o := objOf(info, id); o != nil {
+							if _, seen := lookupDerived[o]; !seen {
+								// only values that can carry a type onward
+								if typeContainsRef(o.Type()) && !isErrorType(o.Type()) {
+									lookupDerived[o] = from
+									changed = true
+								}
+							}
+						}
+					}
+				}
+			}
+			return true
+		})
+	}
+	return lookupDerived
+}
+
+func c04Recursion(ctx *Ctx, r *Report, g *callGraph) map[*types.Func]bool {
+	like := c04LookupLike(ctx, g)
+	r.Count("lookup-like functions (Locate*/Resolve* and functions returning what they return)", len(like))
 	comps := g.sccs()
 	r.Count("recursive SCCs", len(comps))
 	r.Floor("recursive SCCs", 30)
@@ -61,50 +216,16 @@ func c04Recursion(ctx *Ctx, r *Report, g *callGraph) {
 			n := g.nodes[f]
 			info := n.pkg.TypesInfo
 			parents := parentMap(n.decl)
-			lookupDerived := map[types.Object]ast.Expr{} // local -> lookup call it derives from
-			for changed := true; changed; {
-				changed = false
-				ast.Inspect(n.decl.Body, func(m ast.Node) bool {
-					as, ok := m.(*ast.AssignStmt)
-					if !ok {
-						return true
-					}
-					var from ast.Expr
-					for _, rhs := range as.Rhs {
-						ast.Inspect(rhs, func(k ast.Node) bool {
-							if call, ok := k.(*ast.CallExpr); ok && isLookupFunc(callee(info, call)) {
-								from = call
-							}
-							if id, ok := k.(*ast.Ident); ok {
-								if src, ok := lookupDerived[objOf(info, id)]; ok && from == nil {
-									from = src
-								}
-							}
-							return true
-						})
-					}
-					if from != nil {
-						for _, l := range as.Lhs {
-							if id, ok := l.(*ast.Ident); ok && id.Name != "_" {
-								if o := objOf(info, id); o != nil {
-									if _, seen := lookupDerived[o]; !seen {
-										// only values that can carry a type onward
-										if typeContainsRef(o.Type()) {
-											lookupDerived[o] = from
-											changed = true
-										}
-									}
-								}
-							}
-						}
-					}
-					return true
-				})
-			}
+			lookupDerived := c04LookupDerived(info, n.decl, like)
 			seen := map[string]int{}
 			for _, call := range n.calls {
 				fn := callee(info, call)
-				if fn == nil || !member[fn.Origin()] {
+				calleeName := ""
+				if lit := n.closureRec[call]; lit != nil {
+					calleeName = exprString(call.Fun) + "[closure]"
+				} else if fn != nil && member[fn.Origin()] {
+					calleeName = fn.Name()
+				} else {
 					continue
 				}
 				var derivedArg ast.Expr
@@ -125,19 +246,28 @@ func c04Recursion(ctx *Ctx, r *Report, g *callGraph) {
 					continue
 				}
 				edges++
-				cons := fmt.Sprintf("%s → %s(%s)", ctx.FuncName(f), fn.Name(), exprString(derivedArg))
+				cons := fmt.Sprintf("%s → %s(%s)", ctx.FuncName(f), calleeName, exprString(derivedArg))
 				seen[cons]++
 				if seen[cons] > 1 {
 					cons = fmt.Sprintf("%s #%d", cons, seen[cons])
 				}
 				guard := c04RecursionGuard(info, n.decl, parents, call, derivedArg)
+				if guard == "" {
+					guard = c04RefCaseOnly(info, n, parents, call, derivedArg, lookupDerived, len(c) == 1)
+				}
+				if guard == "" {
+					if why, ok := c04RecursionExemptions[cons]; ok {
+						guard = "reviewed: " + why
+					}
+				}
 				r.Check(guard != "", "cgraph/bounded-recursion", cons, call.Pos(), guard,
-					"the recursion follows a reference (the argument comes from an object lookup / reference resolution) without a visited set, a depth bound, or a kind test excluding `ref` on the looked-up type: a reference cycle (A: B, B: A), a self-referential definition or an unresolvable reference makes cog recurse until the stack overflows (a fatal error, not a recoverable panic)")
+					"the recursion follows a reference (the argument comes from an object lookup / reference resolution) without a visited set, a depth bound, or a kind test restricting the looked-up type to a leaf kind: a recursive definition (A: [...A], M: [string]: M, V: string | [...V], N: {children: [...N]}) or a reference cycle makes cog recurse until the stack overflows (a fatal error, not a recoverable panic)")
 			}
 		}
 	}
 	r.Count("reference-following recursive call edges", edges)
 	r.Floor("reference-following recursive call edges", 10)
+	return like
 }
 
 // c04RecursionGuard returns a description of the guard, or "".
@@ -160,18 +290,20 @@ func c04RecursionGuard(info *types.Info, fd *ast.FuncDecl, parents map[ast.Node]
 		if !exits {
 			return true
 		}
-		// membership test: `_, seen := m[k]; seen` / m.Has(k) / m[k]
+		// membership test: `_, seen := m[k]; seen` / m.Has(k) / m[k] — on a container this function also fills before recursing
 		isMember := false
 		check := func(e ast.Node) {
 			ast.Inspect(e, func(k ast.Node) bool {
 				switch x := k.(type) {
 				case *ast.IndexExpr:
-					if _, isMap := info.TypeOf(x.X).Underlying().(*types.Map); isMap {
+					if _, isMap := info.TypeOf(x.X).Underlying().(*types.Map); isMap && c04FilledBefore(info, fd, x.X, call) {
 						isMember = true
 					}
 				case *ast.CallExpr:
-					if fn := callee(info, x); fn != nil && (fn.Name() == "Has" || fn.Name() == "Contains" || fn.Name() == "ItemInList") {
-						isMember = true
+					if fn := callee(info, x); fn != nil && (fn.Name() == "Has" || fn.Name() == "Contains") {
+						if sel, ok := x.Fun.(*ast.SelectorExpr); ok && c04FilledBefore(info, fd, sel.X, call) {
+							isMember = true
+						}
 					}
 				}
 				return true
@@ -182,7 +314,7 @@ func c04RecursionGuard(info *types.Info, fd *ast.FuncDecl, parents map[ast.Node]
 			check(is.Init)
 		}
 		if isMember {
-			visited = "visited-set test (" + exprString(is.Cond) + ") before recursing"
+			visited = "visited-set test (" + exprString(is.Cond) + ") before recursing, on a set filled before the call"
 		}
 		// depth bound
 		if be, ok := ast.Unparen(is.Cond).(*ast.BinaryExpr); ok && (be.Op == token.GTR || be.Op == token.GEQ || be.Op == token.LSS || be.Op == token.LEQ) {
@@ -199,7 +331,11 @@ func c04RecursionGuard(info *types.Info, fd *ast.FuncDecl, parents map[ast.Node]
 	if visited != "" {
 		return visited
 	}
-	// (b) a dominating kind test on the looked-up value that excludes `ref`
+	// (b) a dominating kind test on the looked-up value that restricts it to a leaf kind
+	//     (scalar, enum): such a type has no member through which the recursion could meet a
+	//     reference again. A test for a composite kind (array, map, struct, disjunction, …) or
+	//     a mere "is no longer a reference" test is NOT a guard: `A: [...A]`, `M: [string]: M`,
+	//     `V: string | [...V]` are legal recursive definitions.
 	kindGuard := func(cond ast.Expr, negated bool) string {
 		out := ""
 		ast.Inspect(cond, func(k ast.Node) bool {
@@ -212,16 +348,20 @@ func c04RecursionGuard(info *types.Info, fd *ast.FuncDecl, parents map[ast.Node]
 				return true
 			}
 			switch fn.Name() {
-			case "IsConcreteScalar", "IsScalar", "IsEnum", "IsStruct", "IsDisjunction", "IsArray", "IsMap", "IsIntersection", "IsAny", "IsAnyOf":
+			case "IsConcreteScalar", "IsScalar", "IsEnum", "IsAny", "IsAnyOf":
 				// the tested value must be (part of) what is passed on
 				if sel, ok := c.Fun.(*ast.SelectorExpr); ok {
 					tested := rootIdent(sel.X)
 					passed := rootIdent(arg)
 					if tested != nil && passed != nil && objOf(info, tested) == objOf(info, passed) && !negated {
-						if fn.Name() == "IsAnyOf" && strings.Contains(exprString(c), "KindRef") {
-							return true
+						if fn.Name() == "IsAnyOf" {
+							for _, a := range c.Args {
+								if sa := exprString(a); !strings.HasSuffix(sa, "KindScalar") && !strings.HasSuffix(sa, "KindEnum") {
+									return true
+								}
+							}
 						}
-						out = "kind test " + exprString(c) + " on the looked-up type: recursion continues on a non-reference type"
+						out = "kind test " + exprString(c) + " on the looked-up type: recursion continues on a leaf type, which has no member to descend into"
 					}
 				}
 			}
@@ -252,14 +392,14 @@ func c04RecursionGuard(info *types.Info, fd *ast.FuncDecl, parents map[ast.Node]
 		if f := fieldOf(info, sw.Tag); f != nil && f.Name() == "Kind" {
 			tested, passed := rootIdent(sw.Tag), rootIdent(arg)
 			if tested != nil && passed != nil && objOf(info, tested) == objOf(info, passed) {
-				isRefCase := false
+				leafOnly := cc.List != nil
 				for _, e := range cc.List {
-					if strings.Contains(exprString(e), "KindRef") {
-						isRefCase = true
+					if se := exprString(e); !strings.HasSuffix(se, "KindScalar") && !strings.HasSuffix(se, "KindEnum") {
+						leafOnly = false
 					}
 				}
-				if !isRefCase && cc.List != nil {
-					return "switch on the kind of the looked-up type (case " + exprString(cc.List[0]) + "): recursion continues on a non-reference type"
+				if leafOnly {
+					return "switch on the kind of the looked-up type (case " + exprString(cc.List[0]) + "): recursion continues on a leaf type"
 				}
 			}
 		}
@@ -270,7 +410,18 @@ func c04RecursionGuard(info *types.Info, fd *ast.FuncDecl, parents map[ast.Node]
 // ---------------------------------------------------------------------------
 // (2) reachable panics
 
-var c04PanicExemptions = map[string]string{}
+var c04PanicExemptions = map[string]string{
+	"internal/jennies/common.GeneratedCommentHeader panic #1": "the template parsed and executed here is a constant of the package: the panic is independent of any input",
+}
+
+// reviewed recursion edges (one reason each)
+var c04RecursionExemptions = map[string]string{
+	"internal/veneers.EnvelopeFieldValue.AsIR → AsIR(path)":                                   "the recursion walks the (finite) veneers configuration value: AssignmentValue → Envelope → values; `path` is only the target path of that value",
+	"internal/jennies/php.defaultValueForType → defaultValueForType(fieldOverrides)":          "each call consumes one nesting level of the (finite) default-value object it was given",
+	"internal/jennies/python.defaultValueForType → defaultValueForType(fieldOverrides)":       "each call consumes one nesting level of the (finite) default-value object it was given",
+	"internal/jennies/java.RawTypes.formatReferenceDefaults → genDefaultForType(v)":           "each call consumes one nesting level of the (finite) default value `v` it was given: the recursion only continues while that value is a map holding an entry for the field",
+	"internal/jennies/golang.typeFormatter.formatField → doFormatType(fieldType)":             "fieldType is either the field's own type (structural recursion) or, under IsConcreteScalar, a scalar leaf",
+}
 
 func c04EntryPoints(ctx *Ctx) []*types.Func {
 	var roots []*types.Func
@@ -309,6 +460,7 @@ func c04Panics(ctx *Ctx, r *Report, g *callGraph) {
 	r.Count("functions reachable from the entry points", len(reach))
 	r.Floor("functions reachable from the entry points", 400)
 	total := 0
+	placeholders := 0
 	var fns []*types.Func
 	for f := range g.nodes {
 		fns = append(fns, f)
@@ -325,20 +477,20 @@ func c04Panics(ctx *Ctx, r *Report, g *callGraph) {
 				return true
 			}
 			total++
+			// inside a function literal used only as a template function? (FuncMap value)
+			if fl := enclosingFuncLit(parents, call); fl != nil {
+				if kv, ok := parents[fl].(*ast.KeyValueExpr); ok {
+					if cl, ok := parents[kv].(*ast.CompositeLit); ok && strings.Contains(types.TypeString(info.TypeOf(cl), nil), "FuncMap") {
+						placeholders++
+						return true
+					}
+				}
+			}
 			k++
 			cons := fmt.Sprintf("%s panic #%d", ctx.FuncName(f), k)
 			if _, reachable := reach[f]; !reachable {
 				r.OK("cgraph/no-reachable-panic", cons, call.Pos(), "not reachable from the pipeline entry points by static call edges")
 				return true
-			}
-			// inside a function literal used only as a template function? (FuncMap value)
-			if fl := enclosingFuncLit(parents, call); fl != nil {
-				if kv, ok := parents[fl].(*ast.KeyValueExpr); ok {
-					if cl, ok := parents[kv].(*ast.CompositeLit); ok && strings.Contains(types.TypeString(info.TypeOf(cl), nil), "FuncMap") {
-						r.OK("cgraph/no-reachable-panic", cons, call.Pos(), "template function placeholder: only invoked by text/template, which turns the panic into an error")
-						return true
-					}
-				}
 			}
 			// path for the report
 			var path []string
@@ -357,13 +509,25 @@ func c04Panics(ctx *Ctx, r *Report, g *callGraph) {
 		})
 	}
 	r.Count("explicit panic sites", total)
+	r.Count("template function placeholders (panic recovered by text/template)", placeholders)
+	r.OK("cgraph/no-reachable-panic", "template function placeholders", token.NoPos, fmt.Sprintf("%d placeholder closures in FuncMap literals: only invoked by text/template, whose safeCall turns their panic into an error", placeholders))
 }
 
 // ---------------------------------------------------------------------------
 // (3) unchecked single-value type assertions
 
 // reviewed assertions that cannot fail (one reason each); keyed by function + asserted expression
-var c04AssertionTable = map[string]string{}
+var c04AssertionTable = map[string]string{
+	"internal/jennies/template.Template.builtins v[i].(string)":                                              "the `dict` template helper: only ever invoked by text/template, whose safeCall turns the panic into an error returned by the run",
+	"internal/jennies/common.maybeGet data[key].(T)":                                                          "only reachable through the apiDeclare* template functions: recovered by text/template's safeCall",
+	"internal/jsonschema.generator.walkObject schema.AdditionalProperties.(*schemaparser.Schema)":            "preceded by the guard `_, ok := AdditionalProperties.(bool); if AdditionalProperties == nil || ok { return }`, and the schema library only stores nil, a bool or a *Schema there",
+	"internal/jennies/typescript.RawTypes.defaultValuesForReference typeDef.Default.(map[string]any)":        "guarded by hasStructDefaults(…, typeDef.Default), which is exactly the comma-ok form of this assertion",
+}
+
+// reviewed discarded lookup flags
+var c04LookupTable = map[string]string{
+	"internal/veneers/builder.composeBuilderForType uses Locate #1": "every builder's Package is copied from a schema of the very slice handed to the rewriter and no veneer changes it: the lookup cannot fail inside the pipeline",
+}
 
 func c04Assertions(ctx *Ctx, r *Report) {
 	n := 0
@@ -441,6 +605,21 @@ func c04Assertions(ctx *Ctx, r *Report) {
 			if guarded == "" {
 				if why, ok := c04AssertionTable[key]; ok {
 					guarded = "reviewed: " + why
+					// entries that rely on a guard in the same function: re-verify the guard
+					if strings.Contains(why, "preceded by the guard") && !boolOrNilGuard(info, fd, ta) {
+						guarded = ""
+					}
+					if strings.Contains(why, "guarded by hasStructDefaults") {
+						okG := false
+						for _, c := range enclosingConds(parents, ta) {
+							if strings.Contains(exprString(c.stmt.Cond), "hasStructDefaults") && !c.inElse {
+								okG = true
+							}
+						}
+						if !okG {
+							guarded = ""
+						}
+					}
 				}
 			}
 			r.Check(guarded != "", "flow/checked-assertion", cons, ta.Pos(), guarded,
@@ -523,10 +702,31 @@ func c04Lookups(ctx *Ctx, r *Report) {
 				if st, ok := k.(*ast.StarExpr); ok && isIdentOf(info, st.X, ptr) {
 					deref = st.Pos()
 				}
+				// handed to another function, which cannot know that the lookup failed
+				if c, ok := k.(*ast.CallExpr); ok && c.Pos() > as.End() {
+					for _, a := range c.Args {
+						if isIdentOf(info, a, ptr) {
+							deref = a.Pos()
+						}
+					}
+				}
 				return true
 			})
+			// a nil test on the pointer replaces the flag
+			ast.Inspect(fd.Body, func(k ast.Node) bool {
+				if be, ok := k.(*ast.BinaryExpr); ok && (be.Op == token.EQL || be.Op == token.NEQ) {
+					if (isIdentOf(info, be.X, ptr) && isNilIdent(info, be.Y)) || (isIdentOf(info, be.Y, ptr) && isNilIdent(info, be.X)) {
+						deref = token.NoPos
+					}
+				}
+				return true
+			})
+			if why, ok := c04LookupTable[cons]; ok && deref != token.NoPos {
+				r.OK("flow/checked-lookup", cons, as.Pos(), "reviewed: "+why)
+				return true
+			}
 			r.Check(deref == token.NoPos, "flow/checked-lookup", cons, as.Pos(), "flag discarded but the pointer is not dereferenced",
-				fmt.Sprintf("the found-flag of %s is discarded and the returned pointer is dereferenced (at %s): for a missing entry cog dereferences nil", fn.Name(), ctx.Pos(deref)))
+				fmt.Sprintf("the found-flag of %s is discarded and the returned pointer is dereferenced or handed to another function (at %s) without a nil test: for a missing entry cog dereferences nil", fn.Name(), ctx.Pos(deref)))
 			return true
 		})
 	})
@@ -712,5 +912,710 @@ func c04CallersGuard(ctx *Ctx, p *packages.Package, helper *types.Func, base ast
 	if sites > 0 && sites == guarded {
 		return fmt.Sprintf("unexported helper: each of its %d call sites is guarded by a condition on %s", sites, fieldName)
 	}
+	// one more level: the helper's callers are themselves unexported helpers whose call sites are all guarded
+	if sites > 0 && depthOfCallersGuard < 2 {
+		depthOfCallersGuard++
+		defer func() { depthOfCallersGuard-- }()
+		all := true
+		n := 0
+		for _, file := range p.Syntax {
+			for _, d := range file.Decls {
+				fd, ok := d.(*ast.FuncDecl)
+				if !ok || fd.Body == nil {
+					continue
+				}
+				calls := false
+				ast.Inspect(fd.Body, func(m ast.Node) bool {
+					if c, ok := m.(*ast.CallExpr); ok && callee(info, c) == helper {
+						calls = true
+					}
+					return true
+				})
+				if !calls {
+					continue
+				}
+				caller, _ := info.Defs[fd.Name].(*types.Func)
+				if caller == nil || caller.Exported() {
+					all = false
+					continue
+				}
+				n++
+				if c04CallersGuard(ctx, p, caller, base) == "" {
+					all = false
+				}
+			}
+		}
+		if all && n > 0 {
+			return fmt.Sprintf("unexported helper: every caller (%d) is itself only called under a condition on %s", n, fieldName)
+		}
+	}
 	return ""
+}
+
+var depthOfCallersGuard int
+
+// c04KindGuardedElements: a selection through a kind-specific pointer member of ast.Type
+// (x.Scalar.F, x.Ref.F, …) whose base is an *element* of a collection of types — an indexed
+// expression or a range variable — must be dominated by a kind test on that same element
+// (directly, or through an equality of kinds with an element that is tested). This is the
+// "tested one element, used another" shape; member accesses on a function's own parameters,
+// whose kind is established by the caller, are not decided (see NOT COVERED).
+func c04KindGuardedElements(ctx *Ctx, r *Report) {
+	typeT := ctx.LookupType("internal/ast", "Type")
+	if typeT == nil {
+		r.Undecided("anchor lost: ast.Type")
+		return
+	}
+	st := typeT.Underlying().(*types.Struct)
+	members := map[*types.Var]bool{}
+	for i := 0; i < st.NumFields(); i++ {
+		if _, ok := st.Field(i).Type().(*types.Pointer); ok {
+			members[st.Field(i)] = true
+		}
+	}
+	total := 0
+	ctx.AllFuncDecls(func(p *packages.Package, fd *ast.FuncDecl, obj *types.Func) {
+		if fd.Body == nil || p.PkgPath == astPkgPath {
+			return
+		}
+		info := p.TypesInfo
+		parents := parentMap(fd)
+		rangeVars := map[types.Object]bool{}
+		ast.Inspect(fd.Body, func(n ast.Node) bool {
+			if rs, ok := n.(*ast.RangeStmt); ok {
+				if id, ok := rs.Value.(*ast.Ident); ok && namedOf(info.TypeOf(id)) == typeT {
+					rangeVars[objOf(info, id)] = true
+				}
+			}
+			return true
+		})
+		seen := map[string]int{}
+		ast.Inspect(fd.Body, func(n ast.Node) bool {
+			sel, ok := n.(*ast.SelectorExpr)
+			if !ok {
+				return true
+			}
+			inner, ok := ast.Unparen(sel.X).(*ast.SelectorExpr)
+			if !ok {
+				return true
+			}
+			f := fieldOf(info, inner)
+			if f == nil || !members[f] {
+				return true
+			}
+			base := ast.Unparen(inner.X)
+			isElement := false
+			if _, ok := base.(*ast.IndexExpr); ok && namedOf(info.TypeOf(base)) == typeT {
+				isElement = true
+			}
+			if id, ok := base.(*ast.Ident); ok && rangeVars[objOf(info, id)] {
+				isElement = true
+			}
+			if !isElement {
+				return true
+			}
+			total++
+			// kind tests on an expression
+			kindTested := func(cond ast.Node, e ast.Expr) bool {
+				found := false
+				ast.Inspect(cond, func(k ast.Node) bool {
+					if c, ok := k.(*ast.CallExpr); ok {
+						if s, ok := c.Fun.(*ast.SelectorExpr); ok && sameAccessPath(info, s.X, e) && strings.HasPrefix(s.Sel.Name, "Is") {
+							found = true
+						}
+					}
+					if be, ok := k.(*ast.BinaryExpr); ok {
+						if fs := fieldOf(info, be.X); fs != nil && fs.Name() == "Kind" && fs.Pkg() != nil && fs.Pkg().Path() == astPkgPath {
+							if s, ok := ast.Unparen(be.X).(*ast.SelectorExpr); ok && sameAccessPath(info, s.X, e) {
+								if _, isSel := ast.Unparen(be.Y).(*ast.SelectorExpr); isSel && fieldOf(info, be.Y) == nil {
+									found = true // compared with a Kind constant
+								}
+							}
+						}
+						if fieldOf(info, be.X) == f && isNilIdent(info, be.Y) {
+							if s, ok := ast.Unparen(be.X).(*ast.SelectorExpr); ok && sameAccessPath(info, s.X, e) {
+								found = true
+							}
+						}
+					}
+					return !found
+				})
+				return found
+			}
+			guardedExpr := func(e ast.Expr) bool {
+				for _, c := range enclosingConds(parents, sel) {
+					if kindTested(c.stmt.Cond, e) {
+						return true
+					}
+				}
+				g := false
+				ast.Inspect(fd.Body, func(k ast.Node) bool {
+					if is, ok := k.(*ast.IfStmt); ok && is.Pos() < sel.Pos() && endsInExit(is.Body) && kindTested(is.Cond, e) {
+						g = true
+					}
+					return true
+				})
+				return g
+			}
+			guarded := guardedExpr(base)
+			if !guarded {
+				// equality of kinds with a tested element: `if a.Kind != b.Kind { return }`
+				ast.Inspect(fd.Body, func(k ast.Node) bool {
+					is, ok := k.(*ast.IfStmt)
+					if !ok || is.Pos() > sel.Pos() || !endsInExit(is.Body) {
+						return true
+					}
+					be, ok := ast.Unparen(is.Cond).(*ast.BinaryExpr)
+					if !ok || be.Op != token.NEQ {
+						return true
+					}
+					lx, lok := ast.Unparen(be.X).(*ast.SelectorExpr)
+					ry, rok := ast.Unparen(be.Y).(*ast.SelectorExpr)
+					if !lok || !rok || lx.Sel.Name != "Kind" || ry.Sel.Name != "Kind" {
+						return true
+					}
+					if sameAccessPath(info, lx.X, base) && guardedExpr(ry.X) || sameAccessPath(info, ry.X, base) && guardedExpr(lx.X) {
+						guarded = true
+					}
+					return true
+				})
+			}
+			key := ctx.FuncName(obj) + " " + exprString(sel)
+			seen[key]++
+			cons := key
+			if seen[key] > 1 {
+				cons = fmt.Sprintf("%s #%d", key, seen[key])
+			}
+			r.Check(guarded, "flow/kind-guarded-element", cons, sel.Pos(), "dominated by a kind test on the same element",
+				"the kind-specific member "+exprString(inner)+" of a collection element is selected without a kind test on that element (another element may have been tested): a nil pointer is dereferenced when the element is of another kind")
+			return true
+		})
+	})
+	r.Count("kind-member selections on collection elements", total)
+	r.Floor("kind-member selections on collection elements", 5)
+}
+
+// c04VisitedKeyConsistency: a set / map that is both probed (Has, Get, m[k]) and filled
+// (Set, m[k] = …) must derive its keys the same way on both sides. When the probe of a
+// worklist's visited set uses another derivation than the insertion, the guard never fires
+// and the loop (or recursion) does not terminate on cyclic input.
+func c04VisitedKeyConsistency(ctx *Ctx, r *Report) {
+	type usage struct {
+		reads, writes map[string]token.Pos
+		name          string
+	}
+	n := 0
+	ctx.AllFuncDecls(func(p *packages.Package, fd *ast.FuncDecl, obj *types.Func) {
+		if fd.Body == nil {
+			return
+		}
+		info := p.TypesInfo
+		// local aliases: objects := rootObjects
+		alias := map[types.Object]types.Object{}
+		ast.Inspect(fd.Body, func(m ast.Node) bool {
+			if as, ok := m.(*ast.AssignStmt); ok && len(as.Lhs) == len(as.Rhs) {
+				for i, l := range as.Lhs {
+					lid, lok := l.(*ast.Ident)
+					rid, rok := ast.Unparen(as.Rhs[i]).(*ast.Ident)
+					if lok && rok && objOf(info, lid) != nil && objOf(info, rid) != nil {
+						alias[objOf(info, lid)] = objOf(info, rid)
+					}
+				}
+			}
+			return true
+		})
+		canon := func(o types.Object) types.Object {
+			for i := 0; i < 4; i++ {
+				if a, ok := alias[o]; ok && a != o {
+					o = a
+				} else {
+					break
+				}
+			}
+			return o
+		}
+		// identity of a container: local variable (canonical) or struct field
+		containerOf := func(e ast.Expr) (any, string) {
+			e = ast.Unparen(e)
+			if f := fieldOf(info, e); f != nil {
+				return f, f.Name()
+			}
+			if id, ok := e.(*ast.Ident); ok {
+				if o := objOf(info, id); o != nil {
+					return canon(o), id.Name
+				}
+			}
+			return nil, ""
+		}
+		uses := map[any]*usage{}
+		get := func(c any, name string) *usage {
+			u := uses[c]
+			if u == nil {
+				u = &usage{reads: map[string]token.Pos{}, writes: map[string]token.Pos{}, name: name}
+				uses[c] = u
+			}
+			return u
+		}
+		// keys bound by Iterate callbacks: param -> container iterated
+		iterKey := map[types.Object]any{}
+		var sig func(e ast.Expr, depth int) []string
+		sig = func(e ast.Expr, depth int) []string {
+			e = ast.Unparen(e)
+			switch x := e.(type) {
+			case *ast.CallExpr:
+				name := ""
+				switch f := x.Fun.(type) {
+				case *ast.SelectorExpr:
+					name = f.Sel.Name
+				case *ast.Ident:
+					name = f.Name
+				}
+				return []string{name}
+			case *ast.Ident:
+				if c, ok := iterKey[objOf(info, x)]; ok && depth < 2 {
+					if u := uses[c]; u != nil {
+						var out []string
+						for k := range u.writes {
+							out = append(out, k)
+						}
+						return out
+					}
+				}
+				return []string{""}
+			case *ast.BinaryExpr:
+				return []string{"concat"}
+			case *ast.SelectorExpr:
+				return []string{"." + x.Sel.Name}
+			}
+			return []string{""}
+		}
+		// pass 1: iterate bindings
+		ast.Inspect(fd.Body, func(m ast.Node) bool {
+			c, ok := m.(*ast.CallExpr)
+			if !ok {
+				return true
+			}
+			sel, ok := c.Fun.(*ast.SelectorExpr)
+			if !ok || sel.Sel.Name != "Iterate" || len(c.Args) != 1 {
+				return true
+			}
+			if fl, ok := c.Args[0].(*ast.FuncLit); ok && len(fl.Type.Params.List) > 0 && len(fl.Type.Params.List[0].Names) > 0 {
+				if cont, _ := containerOf(sel.X); cont != nil {
+					iterKey[info.Defs[fl.Type.Params.List[0].Names[0]]] = cont
+				}
+			}
+			return true
+		})
+		// pass 2 (twice, so that iterate-bound keys see the writes of the iterated container)
+		for round := 0; round < 2; round++ {
+			ast.Inspect(fd.Body, func(m ast.Node) bool {
+				switch x := m.(type) {
+				case *ast.CallExpr:
+					sel, ok := x.Fun.(*ast.SelectorExpr)
+					if !ok || len(x.Args) == 0 {
+						return true
+					}
+					fn := callee(info, x)
+					if fn == nil || fn.Pkg() == nil || fn.Pkg().Path() != omapPkgPath {
+						return true
+					}
+					cont, name := containerOf(sel.X)
+					if cont == nil {
+						return true
+					}
+					switch fn.Name() {
+					case "Has", "Get":
+						for _, s := range sig(x.Args[0], 0) {
+							get(cont, name).reads[s] = x.Pos()
+						}
+					case "Set":
+						for _, s := range sig(x.Args[0], 0) {
+							get(cont, name).writes[s] = x.Pos()
+						}
+					}
+				case *ast.IndexExpr:
+					if _, isMap := info.TypeOf(x.X).Underlying().(*types.Map); !isMap {
+						return true
+					}
+					if b, ok := info.TypeOf(x.Index).Underlying().(*types.Basic); !ok || b.Info()&types.IsString == 0 {
+						return true
+					}
+					cont, name := containerOf(x.X)
+					if cont == nil {
+						return true
+					}
+					isWrite := false
+					if as, ok := parentOf(fd, x).(*ast.AssignStmt); ok {
+						for _, l := range as.Lhs {
+							if l == ast.Expr(x) {
+								isWrite = true
+							}
+						}
+					}
+					for _, s := range sig(x.Index, 0) {
+						if isWrite {
+							get(cont, name).writes[s] = x.Pos()
+						} else {
+							get(cont, name).reads[s] = x.Pos()
+						}
+					}
+				}
+				return true
+			})
+		}
+		for _, u := range uses {
+			if len(u.reads) == 0 || len(u.writes) == 0 {
+				continue
+			}
+			n++
+			keys := func(m map[string]token.Pos) []string {
+				var out []string
+				for k := range m {
+					if k == "" {
+						continue // a plain identifier says nothing about how the key was derived
+					}
+					out = append(out, k)
+				}
+				sort.Strings(out)
+				return out
+			}
+			rk, wk := keys(u.reads), keys(u.writes)
+			same := strings.Join(rk, ",") == strings.Join(wk, ",")
+			// plain identifiers carry no information about their derivation: only compare when both sides are informative
+			if !same && (len(rk) == 0 || len(wk) == 0) {
+				same = true
+			}
+			var pos token.Pos
+			for _, p2 := range u.reads {
+				pos = p2
+			}
+			r.Check(same, "flow/visited-key-consistency", ctx.FuncName(obj)+" "+u.name, pos, "probes and insertions derive their keys the same way ("+strings.Join(rk, ",")+")",
+				fmt.Sprintf("%s is probed with keys derived by {%s} but filled with keys derived by {%s}: a visited-set guard built on it never fires for keys on which the two derivations differ, and the traversal does not terminate on cyclic input", u.name, strings.Join(rk, ","), strings.Join(wk, ",")))
+		}
+	})
+	r.Count("probed-and-filled sets", n)
+	r.Floor("probed-and-filled sets", 8)
+}
+
+func parentOf(root ast.Node, target ast.Node) ast.Node {
+	var parent ast.Node
+	var stack []ast.Node
+	ast.Inspect(root, func(n ast.Node) bool {
+		if parent != nil {
+			return false
+		}
+		if n == nil {
+			stack = stack[:len(stack)-1]
+			return true
+		}
+		if n == target && len(stack) > 0 {
+			parent = stack[len(stack)-1]
+			return false
+		}
+		stack = append(stack, n)
+		return true
+	})
+	return parent
+}
+
+// boolOrNilGuard: before the assertion X.(T) the function leaves when X is nil or holds a bool:
+// `_, ok := X.(bool); if X == nil || ok { return … }`.
+func boolOrNilGuard(info *types.Info, fd *ast.FuncDecl, ta *ast.TypeAssertExpr) bool {
+	found := false
+	var okObj types.Object
+	ast.Inspect(fd.Body, func(n ast.Node) bool {
+		switch x := n.(type) {
+		case *ast.AssignStmt:
+			if len(x.Lhs) == 2 && len(x.Rhs) == 1 && x.Pos() < ta.Pos() {
+				if t2, ok := ast.Unparen(x.Rhs[0]).(*ast.TypeAssertExpr); ok && sameAccessPath(info, t2.X, ta.X) && t2.Type != nil && info.TypeOf(t2.Type).String() == "bool" {
+					if id, ok := x.Lhs[1].(*ast.Ident); ok {
+						okObj = objOf(info, id)
+					}
+				}
+			}
+		case *ast.IfStmt:
+			if okObj == nil || x.Pos() > ta.Pos() || !endsInExit(x.Body) {
+				return true
+			}
+			be, ok := ast.Unparen(x.Cond).(*ast.BinaryExpr)
+			if !ok || be.Op != token.LOR {
+				return true
+			}
+			nilTest, okTest := false, false
+			for _, side := range []ast.Expr{be.X, be.Y} {
+				if isIdentOf(info, side, okObj) {
+					okTest = true
+				}
+				if b2, ok := ast.Unparen(side).(*ast.BinaryExpr); ok && b2.Op == token.EQL && sameAccessPath(info, b2.X, ta.X) && isNilIdent(info, b2.Y) {
+					nilTest = true
+				}
+			}
+			if nilTest && okTest {
+				found = true
+			}
+		}
+		return true
+	})
+	return found
+}
+
+// c04RefCaseOnly: a function that is alone in its recursive component (or hands the looked-up value to no
+// other call than its self-calls), whose every self-call sits in
+// the branch handling a *reference* parameter (`case ast.KindRef:` of a switch on the parameter's
+// kind, or `if p.IsRef()`), and which passes on a resolved value after leaving when that value is
+// still a reference: the callee then takes another branch, in which there is no self-call. The
+// recursion depth is at most two.
+func c04RefCaseOnly(info *types.Info, n *cgNode, parents map[ast.Node]ast.Node, call *ast.CallExpr, arg ast.Expr, derived map[types.Object]ast.Expr, alone bool) string {
+	inRefCase := func(c *ast.CallExpr) bool {
+		for p := parents[ast.Node(c)]; p != nil; p = parents[p] {
+			switch x := p.(type) {
+			case *ast.CaseClause:
+				sw, ok := parents[parents[x]].(*ast.SwitchStmt)
+				if !ok || sw.Tag == nil {
+					continue
+				}
+				if f := fieldOf(info, sw.Tag); f == nil || f.Name() != "Kind" {
+					continue
+				}
+				if id := rootIdent(sw.Tag); id == nil || !isParamOf(info, n.decl, objOf(info, id)) {
+					continue
+				}
+				if len(x.List) == 1 && strings.HasSuffix(exprString(x.List[0]), "KindRef") {
+					return true
+				}
+			}
+		}
+		for _, ce := range enclosingConds(parents, c) {
+			if ce.inElse {
+				continue
+			}
+			if cc, ok := ast.Unparen(ce.stmt.Cond).(*ast.CallExpr); ok {
+				if fn := callee(info, cc); fn != nil && fn.Name() == "IsRef" {
+					if sel, ok := cc.Fun.(*ast.SelectorExpr); ok {
+						if id := rootIdent(sel.X); id != nil && isParamOf(info, n.decl, objOf(info, id)) {
+							return true
+						}
+					}
+				}
+			}
+		}
+		return false
+	}
+	for _, c := range n.calls {
+		self := n.closureRec[c] != nil
+		if fn := callee(info, c); fn != nil && fn.Origin() == n.fn {
+			self = true
+		}
+		if self && !inRefCase(c) {
+			return ""
+		}
+		if !self && !alone {
+			// the call graph places other functions in the component (func literals are attributed to the
+			// function containing them): no other call of this function may carry the looked-up value away
+			for _, a := range c.Args {
+				carried := false
+				ast.Inspect(a, func(k ast.Node) bool {
+					if id, ok := k.(*ast.Ident); ok {
+						if _, ok := derived[objOf(info, id)]; ok {
+							carried = true
+						}
+					}
+					return true
+				})
+				if carried {
+					return ""
+				}
+			}
+		}
+	}
+	// the passed value is known not to be a reference any more
+	refExit := ""
+	ast.Inspect(n.decl.Body, func(m ast.Node) bool {
+		is, ok := m.(*ast.IfStmt)
+		if !ok || is.Pos() > call.Pos() || !endsInExit(is.Body) {
+			return true
+		}
+		if c, ok := ast.Unparen(is.Cond).(*ast.CallExpr); ok {
+			if fn := callee(info, c); fn != nil && fn.Name() == "IsRef" {
+				if sel, ok := c.Fun.(*ast.SelectorExpr); ok {
+					tested, passed := rootIdent(sel.X), rootIdent(arg)
+					if tested != nil && passed != nil && objOf(info, tested) == objOf(info, passed) && isAccessPath(arg) && sameAccessPath(info, sel.X, arg) {
+						refExit = "every self-call sits in the branch taken for a reference parameter, and the function leaves when the resolved value is still a reference (" + exprString(is.Cond) + "): the callee takes a branch without self-call (depth ≤ 2)"
+					}
+				}
+			}
+		}
+		return true
+	})
+	return refExit
+}
+
+func isParamOf(info *types.Info, fd *ast.FuncDecl, o types.Object) bool {
+	if o == nil || fd.Type.Params == nil {
+		return false
+	}
+	for _, f := range fd.Type.Params.List {
+		for _, nm := range f.Names {
+			if info.Defs[nm] == o {
+				return true
+			}
+		}
+	}
+	return false
+}
+
+// c04FilledBefore: the container expression is inserted into (m[k] = v, m.Set(k, …), m.Add(k)) in fd before `before`.
+func c04FilledBefore(info *types.Info, fd *ast.FuncDecl, container ast.Expr, before ast.Node) bool {
+	found := false
+	ast.Inspect(fd.Body, func(n ast.Node) bool {
+		if n == nil || found {
+			return false
+		}
+		if n.Pos() > before.Pos() {
+			return false
+		}
+		switch x := n.(type) {
+		case *ast.AssignStmt:
+			for _, l := range x.Lhs {
+				if ix, ok := ast.Unparen(l).(*ast.IndexExpr); ok && sameAccessPath(info, ix.X, container) {
+					found = true
+				}
+			}
+		case *ast.CallExpr:
+			if sel, ok := x.Fun.(*ast.SelectorExpr); ok && (sel.Sel.Name == "Set" || sel.Sel.Name == "Add") && sameAccessPath(info, sel.X, container) {
+				found = true
+			}
+		}
+		return true
+	})
+	return found
+}
+
+// c04RefLoops: a `for` loop whose loop-carried variable is reassigned from the result of a
+// lookup (it follows references iteratively) needs a visited-set exit: aliases can form
+// cycles (`A: B`, `B: A`) and types can be recursive (`A: [...A]`).
+func c04RefLoops(ctx *Ctx, r *Report, like map[*types.Func]bool) {
+	n := 0
+	ctx.AllFuncDecls(func(p *packages.Package, fd *ast.FuncDecl, obj *types.Func) {
+		if fd.Body == nil {
+			return
+		}
+		info := p.TypesInfo
+		idx := 0
+		ast.Inspect(fd.Body, func(m ast.Node) bool {
+			loop, ok := m.(*ast.ForStmt)
+			if !ok {
+				return true
+			}
+			// loop-carried variable: declared outside the loop, assigned inside from a value that a lookup
+			// made in the loop produced (directly or through locals of the loop)
+			var carried types.Object
+			var carriedPos token.Pos
+			local := map[types.Object]bool{}
+			for changed := true; changed; {
+				changed = false
+				ast.Inspect(loop.Body, func(k ast.Node) bool {
+					if _, ok := k.(*ast.FuncLit); ok {
+						return false
+					}
+					as, ok := k.(*ast.AssignStmt)
+					if !ok {
+						return true
+					}
+					fromLookup := false
+					for _, rhs := range as.Rhs {
+						ast.Inspect(rhs, func(q ast.Node) bool {
+							switch x := q.(type) {
+							case *ast.CallExpr:
+								if f := callee(info, x); f != nil && (isLookupFunc(f) || like[f.Origin()]) {
+									fromLookup = true
+								}
+							case *ast.Ident:
+								if local[objOf(info, x)] {
+									fromLookup = true
+								}
+							}
+							return true
+						})
+					}
+					if !fromLookup {
+						return true
+					}
+					for _, l := range as.Lhs {
+						id, ok := l.(*ast.Ident)
+						if !ok || id.Name == "_" {
+							continue
+						}
+						o := objOf(info, id)
+						if o == nil || !typeContainsRef(o.Type()) || isErrorType(o.Type()) {
+							continue
+						}
+						if !local[o] {
+							local[o] = true
+							changed = true
+						}
+						if o.Pos() < loop.Pos() || o.Pos() > loop.End() {
+							carried, carriedPos = o, as.Pos()
+						}
+					}
+					return true
+				})
+			}
+			if carried == nil {
+				return true
+			}
+			n++
+			idx++
+			cons := fmt.Sprintf("%s loop #%d on %s", ctx.FuncName(obj), idx, carried.Name())
+			guard := ""
+			ast.Inspect(loop.Body, func(k ast.Node) bool {
+				is, ok := k.(*ast.IfStmt)
+				if !ok || len(is.Body.List) == 0 {
+					return true
+				}
+				exits := false
+				switch last := is.Body.List[len(is.Body.List)-1].(type) {
+				case *ast.ReturnStmt:
+					exits = true
+				case *ast.BranchStmt:
+					exits = last.Tok == token.BREAK
+				}
+				if !exits {
+					return true
+				}
+				check := func(e ast.Node) {
+					ast.Inspect(e, func(q ast.Node) bool {
+						switch x := q.(type) {
+						case *ast.IndexExpr:
+							if _, isMap := info.TypeOf(x.X).Underlying().(*types.Map); isMap && c04FilledBefore(info, fd, x.X, loop.Body.List[len(loop.Body.List)-1]) {
+								guard = "visited-set exit (" + exprString(is.Cond) + ") on a set filled in the loop"
+							}
+						case *ast.CallExpr:
+							if fn := callee(info, x); fn != nil && (fn.Name() == "Has" || fn.Name() == "Contains") {
+								if sel, ok := x.Fun.(*ast.SelectorExpr); ok && c04FilledBefore(info, fd, sel.X, loop.Body.List[len(loop.Body.List)-1]) {
+									guard = "visited-set exit (" + exprString(is.Cond) + ") on a set filled in the loop"
+								}
+							}
+						}
+						return true
+					})
+				}
+				check(is.Cond)
+				if is.Init != nil {
+					check(is.Init)
+				}
+				return true
+			})
+			if guard == "" {
+				if why, ok := c04RecursionExemptions[cons]; ok {
+					guard = "reviewed: " + why
+				}
+			}
+			r.Check(guard != "", "flow/bounded-ref-loop", cons, carriedPos, guard,
+				"the loop follows references (its variable "+carried.Name()+" is reassigned from the result of a lookup) without leaving on an already visited reference: an alias cycle (A: B, B: A) or a recursive definition makes it spin forever")
+			return true
+		})
+	})
+	r.Count("reference-following loops", n)
+	r.Floor("reference-following loops", 5)
 }
